@@ -11,7 +11,6 @@ import (
 	"regexp"
 	"strconv"
 	"strings"
-	"unicode/utf8"
 
 	"cuelang.org/go/cue/literal"
 	"github.com/cockroachdb/apd/v3"
@@ -23,13 +22,7 @@ func c11OnlyNewlines(s string) bool { return s != "" && strings.Trim(s, "\n") ==
 // literal is multi-line) or as a mapping key at any depth (key=true).
 func c11KnownClass(goccy bool, s string, key bool, multi bool) string {
 	if goccy {
-		switch {
-		case key && c11SingleQuotedKeyWithLF(s):
-			return "goccy-single-quoted-key-with-line-feed"
-		case c11LibNeedQuoted(s) && c11HasNonPrint(s) && !strings.ContainsAny(s, "\n\r"):
-			return "goccy-library-quoted-nonprintable"
-		}
-		return ""
+		return "" // every string class found so far is repaired in /repo (see the fixed: lines)
 	}
 	// yaml.v3 based implementation
 	switch {
@@ -46,9 +39,6 @@ func c11KnownClass(goccy bool, s string, key bool, multi bool) string {
 // c11KnownTop: classes that apply to a string only at column 0 of the document (top-level
 // scalar, or key of the top-level mapping).
 func c11KnownTop(goccy bool, s string) string {
-	if goccy && strings.HasPrefix(s, "\ufeff") {
-		return "goccy-byte-order-mark-prefix-at-document-start"
-	}
 	return ""
 }
 
@@ -184,30 +174,4 @@ func c11KnownNum(goccy bool, v *c11V) string {
 
 // c11KnownKeyStyle: classes of keys whose visible style is known to differ from the in-repo
 // decision (the decision is the model's; the library then mangles the scalar).
-func c11KnownKeyStyle(s string) string {
-	if c11SingleQuotedKeyWithLF(s) {
-		return "goccy-single-quoted-key-with-line-feed"
-	}
-	return ""
-}
-
-// c11SingleQuotedKeyWithLF: a key for which needsSingleQuoting holds ("?" / "? " prefix, "<<"
-// suffix, "..." prefix), that contains a line feed and nothing yamlUnprintable: quoteScalar
-// single-quotes it with the raw line feed inside.
-func c11SingleQuotedKeyWithLF(s string) bool {
-	if !(strings.HasPrefix(s, "? ") || strings.HasSuffix(s, "<<") || strings.HasPrefix(s, "...")) || !strings.Contains(s, "\n") {
-		return false
-	}
-	for i, r := range s {
-		switch {
-		case r == '\t' || r == '\n':
-		case r < 0x20 || r == 0x7F || r == 0x85 || r == 0x2028 || r == 0x2029 || r == 0xFFFE || r == 0xFFFF:
-			return false
-		case r == utf8.RuneError:
-			if _, size := utf8.DecodeRuneInString(s[i:]); size == 1 {
-				return false
-			}
-		}
-	}
-	return true
-}
+func c11KnownKeyStyle(s string) string { return "" }
